@@ -304,6 +304,10 @@ class Universe(object):
             for a, b in zip(cs, cs[1:]):
                 pts.add((a + b) / 2)
             pts |= set(cs)
+        if key.startswith('num:len[') and key.count('len[') == 1 and ' + ' not in key and '*' not in key.split(']')[-1]:
+            nonneg = [x for x in pts if x >= 0]       # a length is never negative
+            if nonneg:
+                return sorted(nonneg)
         return sorted(pts)
 
     def assignments(self, fixed=None, keys=None):
